@@ -153,7 +153,7 @@ func genCollectorExclusions(t *rapid.T, req, resp *node) []string {
 		}
 	}
 	// an exclusion written for one body whose cursor exists in the other body
-	if rapid.IntRange(0, 3).Draw(t, "cross") == 0 {
+	if chance(t, "cross", 1, 4) {
 		for _, x := range genCursorExclusions(t, resp, "cross-excl") {
 			if _, ok := parseCursor(x); ok && x != "" {
 				out = append(out, reqPrefix+x)
@@ -209,7 +209,7 @@ func TestHARGeneratorPluginBodies(t *testing.T) {
 		rq, rp := genDocument(t), genDocument(t)
 		exReq := genCursorExclusions(t, rq.root, "req-excl")
 		exResp := genCursorExclusions(t, rp.root, "resp-excl")
-		if rapid.IntRange(0, 3).Draw(t, "cross") == 0 {
+		if chance(t, "cross", 1, 4) {
 			// the same path list reused for the other body must be judged on its own
 			exReq = append(exReq, genCursorExclusions(t, rp.root, "cross-excl")...)
 		}
